@@ -147,7 +147,10 @@ type hookM struct {
 	s  string
 }
 
-func (h hookM) MarshalJSON() ([]byte, error) { h.st.fire(); return json.Marshal(map[string]string{"hook": h.s}) }
+func (h hookM) MarshalJSON() ([]byte, error) {
+	h.st.fire()
+	return json.Marshal(map[string]string{"hook": h.s})
+}
 
 type hookE struct {
 	st *hookState
